@@ -184,6 +184,16 @@ func Corpus() []*Schema {
 			Nested: []M{{Name: "Item", Fields: []F{{"reason", 1, "string", "opt"}, {"kinds", 2, "enum:Color", "packed"}}},
 				{Name: "Part", Fields: []F{{"id", 1, "int64", "req"}, {"a", 2, "int32", "oneof:pick"}, {"b", 3, "string", "oneof:pick"}}}}},
 		{Name: "Item", Fields: []F{{"top", 1, "bool", "req"}, {"by", 2, "int32", "map:string"}}}}})
+	// what the generator decides PER FILE by scanning the messages (imports of "strings" / "math", helpers): the only
+	// message with the feature sits two and three levels deep, last in the file
+	cs = append(cs, &Schema{ID: "deepreq", Syntax: "proto2", Messages: []M{{Name: "Plain", Fields: []F{{"n", 1, "int32", "opt"}}},
+		{Name: "Outer", Fields: []F{{"n", 1, "int32", "opt"}, {"mid", 2, "msg:Outer.Mid", "opt"}}, Nested: []M{{Name: "Mid", Fields: []F{{"in", 1, "msg:Outer.Mid.Inner", "opt"}},
+			Nested: []M{{Name: "Inner", Fields: []F{{"id", 1, "int32", "req"}, {"deep", 2, "msg:Outer.Mid.Inner.Deepest", "opt"}},
+				Nested: []M{{Name: "Deepest", Fields: []F{{"name", 1, "string", "req"}}}}}}}}}}})
+	cs = append(cs, &Schema{ID: "deepfloat", Syntax: "proto3", Messages: []M{{Name: "Plain", Fields: []F{{"n", 1, "int32", "opt"}}},
+		{Name: "Outer", Fields: []F{{"n", 1, "int32", "opt"}, {"mid", 2, "msg:Outer.Mid", "opt"}}, Nested: []M{{Name: "Mid", Fields: []F{{"in", 1, "msg:Outer.Mid.Inner", "opt"}},
+			Nested: []M{{Name: "Inner", Fields: []F{{"s", 1, "string", "opt"}, {"deep", 2, "msg:Outer.Mid.Inner.Deepest", "opt"}},
+				Nested: []M{{Name: "Deepest", Fields: []F{{"f", 1, "float", "opt"}, {"d", 2, "double", "opt"}}}}}}}}}}})
 	// two messages whose short names coincide when lower-cased: one output file name for both with
 	// filepermessage=true (open finding B15)
 	cs = append(cs, &Schema{ID: "samename", Syntax: "proto3", Messages: []M{{Name: "Outer", Fields: []F{{"a", 1, "int32", "opt"}},
